@@ -56,6 +56,40 @@ class Servers:
             self.ports[mode] = int(line)
         return self.ports[mode]
 
+    def dead_port(self):
+        """a loopback port nobody listens on (connect() is refused)"""
+        import socket
+        if not hasattr(self, "_dead_port"):
+            s = socket.socket()
+            s.bind(("127.0.0.1", 0))
+            self._dead_port = s.getsockname()[1]
+            s.close()
+        return self._dead_port
+
+    def blackhole_port(self):
+        """a loopback port whose listener never accepts and whose accept queue is full: connect() gets no answer (times out).
+        The listener and the filler connections live in this process from before any fd baseline is taken."""
+        import socket
+        if not hasattr(self, "_blackhole"):
+            l = socket.socket()
+            l.bind(("127.0.0.1", 0))
+            l.listen(0)
+            port = l.getsockname()[1]
+            fill = []
+            for _ in range(8):
+                c = socket.socket()
+                c.settimeout(0.3)
+                try:
+                    c.connect(("127.0.0.1", port))
+                    fill.append(c)
+                except OSError:
+                    c.close()
+                    break
+            else:
+                raise RigTrouble("could not fill the accept queue of the blackhole listener")
+            self._blackhole = (l, fill, port)
+        return self._blackhole[2]
+
     def close(self):
         for p in self.procs.values():
             try:
@@ -113,7 +147,7 @@ class RealRig(Rig):
         self.dead_seen = False
         kw = dict(host="127.0.0.1", port=self.srv.port(self.kind), transport=self.kind, auth_username="u",
                   auth_password="good" if case.get("auth", "good") == "good" else "bad", auth_strict_key=False,
-                  timeout_socket=10, timeout_transport=case.get("timeout_transport", 20), timeout_ops=case.get("timeout_ops", 8),
+                  timeout_socket=case.get("timeout_socket", 10), timeout_transport=case.get("timeout_transport", 20), timeout_ops=case.get("timeout_ops", 8),
                   auth_bypass=case.get("bypass", self.kind != "system"))
         if self.kind in ("telnet", "asynctelnet"):
             kw["auth_bypass"] = case.get("login") != "refuse"
@@ -158,10 +192,19 @@ class RealRig(Rig):
                 c["hangup"] = 1.2      # the child hangs up its terminal, exits 1.2 s later
             elif fault[0] == "silent":
                 c["silent_after"] = fault[1]
+            elif fault[0] == "rst":
+                c["die_after"] = fault[1]
+                c["rst"] = True
+            elif fault[0] in ("refuse", "blackhole"):
+                # nobody listens on / nobody ever accepts on the port this operation dials
+                self._real_port = self.t._base_transport_args.port
+                self.t._base_transport_args.port = self.srv.dead_port() if fault[0] == "refuse" else self.srv.blackhole_port()
         self.srv.set_ctl(**c)
 
     def disarm(self):
-        pass
+        if getattr(self, "_real_port", None) is not None:
+            self.t._base_transport_args.port = self._real_port
+            self._real_port = None
 
     def dispose(self):
         try:
@@ -315,7 +358,7 @@ def H(s):
         f = None
         if "!" in w:
             w, f = w.split("!")
-            f = [{"d": "die", "s": "silent", "h": "hangup"}[f[0]], int(f[1:])]
+            f = [{"d": "die", "s": "silent", "h": "hangup", "r": "rst", "c": "refuse", "b": "blackhole"}[f[0]], int(f[1:])]
         d = {"op": w.split(".")[0]}
         if "." in w:
             d["body"] = w.split(".")[1]
@@ -330,7 +373,12 @@ def quick_cases():
     is observed by a read), then close() / with-exit must have reaped it -- no process table entry, no pty descriptor"""
     mk = lambda plat, sink, bypass, sh: dict(stack="sync", platform=plat, kind="system", sink=sink, on_open="default", on_close="default",
                                              timeout_ops=15, bypass=bypass, ops=H(sh))
-    return [{**mk("cisco_iosxe", "path", False, "W.x W"), "login": "refuse"},     # ssh never lets us in: open() fails with the child + pty up
+    tel = lambda kind, plat, sink, sh, **kw: dict(stack="sync" if kind == "telnet" else "async", platform=plat, kind=kind, sink=sink, on_open="default",
+                                                 on_close="default", timeout_ops=8, neg=3, ops=H(sh), **kw)
+    # real sockets whose peer is already gone when close() runs: refused connect inside with, reset mid-session, reset during login
+    dead_peer = [tel("telnet", "generic", "path", "W.x!c0 W.x"), tel("telnet", "cisco_iosxe", "none", "O X!r1 C O X C"),
+                 tel("telnet", "generic", "true", "W.x!r2 W", login="refuse", bypass=False), tel("asynctelnet", "generic", "path", "W.x!c0 W.x!r1 W.x")]
+    return dead_peer + [{**mk("cisco_iosxe", "path", False, "W.x W"), "login": "refuse"},     # ssh never lets us in: open() fails with the child + pty up
             mk("generic", "path", False, "O X!d1 C O X C"), mk("cisco_iosxe", "true", True, "W.x!d1 W.x"),
             mk("generic", "none", True, "O X!h1 C"), mk("arista_eos", "bytesio", False, "O X C C")]
 
@@ -362,6 +410,16 @@ def real_cases():
         cases.append(dict(stack="sync", platform=plat, kind="system", sink=sinks[i % 4], on_open="default", on_close="default", timeout_ops=8,
                           bypass=(i % 2 == 0), ops=H(sh)))
         i += 1
+    # the peer is already gone when close() runs: refused connect, connect that never gets an answer, reset mid-session, reset
+    # during login, orderly FIN (the !d shapes above) -- both Telnet transports
+    for kind in ("telnet", "asynctelnet"):
+        for plat, sh, extra in (("generic", "W.x!c0 W.x", {}), ("cisco_iosxe", "O!c0 C O X C", {}), ("generic", "O X!r1 C O X C", {}),
+                                ("cisco_iosxe", "W.x!r1 W.x", {}), ("arista_eos", "W!r2 W.x", {}), ("generic", "W.x!r2 W", dict(login="refuse", bypass=False)),
+                                ("generic", "O X C!r1 O X C", {}), ("generic", "W.x!b0 W.x", dict(timeout_socket=1.0)),
+                                ("cisco_iosxe", "O!b0 C O X C", dict(timeout_socket=1.0))):
+            cases.append(dict(stack="sync" if kind in SYNC_KINDS else "async", platform=plat, kind=kind, sink=sinks[i % 4], on_open="default",
+                              on_close="default", timeout_ops=8, neg=[0, 3][i % 2], ops=H(sh), **extra))
+            i += 1
     # the device refuses the in-channel login: open() raises ScrapliAuthenticationFailed with the transport up
     for kind, plat, sh in (("system", "generic", "W.x W"), ("system", "arista_eos", "O C W.x"), ("telnet", "generic", "W.x O C"),
                            ("telnet", "cisco_iosxe", "W W.x"), ("asynctelnet", "generic", "W.x O C"), ("asynctelnet", "arista_eos", "W W.x")):
@@ -396,6 +454,12 @@ def compare_real(mod, case, results, model):
         if res["marks"] != m["trace"]:
             return f"op {i} statements reached impl={'>'.join(res['marks'])} model={'>'.join(m['trace'])}"
         for k in ("sess", "chan", "os", "file", "att", "bio"):
+            if k in ("sess", "chan", "os") and case["kind"] in ("telnet", "asynctelnet") and m["flags"]["sess"] and not m["flags"]["alive"]:
+                # a session that is dead but not yet closed: TelnetTransport's own handle test (Socket.__bool__ = isalive()) is False for
+                # the dead socket it still holds; asyncio has already closed the descriptor of a reset connection itself
+                continue
+            if k == "os" and case["kind"] == "telnet" and case["ops"][i]["op"] == "O" and any(x[0] == "topen-raised" for x in res["seg"]):
+                continue     # the never-connected socket object of a failed Socket.open() lives until close() drops the reference
             want = m["flags"][k] or (k == "os" and m["flags"]["orphan"])
             if bool(res["flags"][k]) != want:
                 return f"op {i} flag {k} impl={res['flags'][k]} ({res['flags'].get('os_detail')}) model={want}"
@@ -428,6 +492,8 @@ def run_all(ck, mod, tier="thorough"):
         cases = real_cases() if tier == "thorough" else quick_cases()
         for k in sorted({c["kind"] for c in cases} - {"system"}):
             servers().port(k)           # device processes (and their stdout pipes) exist before any fd baseline is taken
+        if any(s.get("fault") and s["fault"][0] == "blackhole" for c in cases for s in c["ops"]):
+            servers().blackhole_port()
         for case in cases:
             def fresh(specs, case=case):
                 key = (json.dumps({k: v for k, v in case.items() if k != "ops"}, sort_keys=True), json.dumps(specs, sort_keys=True))
